@@ -22,7 +22,7 @@ RULE = (
     "with refresh and non-refresh steps, presence-mask changes and lr / weight-decay edits). Non-trivial = dynamo compiled >= 1 frame and the history contains a "
     "presence-mask change or the warm-up -> preconditioned switch. Distinct = canonical JSON."
 )
-BOUNDS = "float32 parameters, numel <= 60, <= 8 steps incl. rollbacks into the live optimizers; inductor is outside the property's premise (it does not preserve eager numerics)"
+BOUNDS = "float32 / float64 parameters, numel <= 60, <= 8 steps incl. rollbacks into the live optimizers; inductor is outside the property's premise (it does not preserve eager numerics)"
 ASSUMPTIONS = ["torch._dynamo.utils.counters['frames']['ok'] counts successfully compiled frames"]
 NONTRIVIAL_FLOOR = 4
 
@@ -32,7 +32,7 @@ def strategy():
 
     @st.composite
     def case(draw: Any) -> dict:
-        cfg = draw(gen.st_config(dtypes=(("f32", "f32"),), solvers=("eigen", "eigen_stab"), kinds=("shampoo", "shampoo", "soap"), max_mpd=4, gscale=1.0))
+        cfg = draw(gen.st_config(dtypes=(("f32", "f32"), ("f32", "f32"), ("f64", "f64"), ("f64", "f32")), solvers=("eigen", "eigen_stab"), kinds=("shampoo", "shampoo", "soap"), max_mpd=4, gscale=1.0))
         cfg["start"] = draw(st.integers(cfg["freq"], cfg["freq"] + 2))
         k = draw(st.integers(1, 3))
         shapes = [draw(gen.st_shape(cfg["mpd"], max_order=3, max_numel=60)) for _ in range(k)]
@@ -105,7 +105,7 @@ def oracle(case: dict) -> Outcome:
         ea = A.raw_step(s)
         eb = B.raw_step(s)
         if ea is not None and eb is None and type(ea).__name__ == "BackendCompilerFailed" and (
-                ("share the same storage" in str(ea) and "dynamic" in str(ea)) or (case["dyn"] != "static" and "SymInt" in str(ea))):
+                ("share the same storage" in str(ea) and "dynamic" in str(ea)) or (case["dyn"] != "static" and ("SymInt" in str(ea) or "size_bytes_is_heap_allocated_" in str(ea)))):
             # torch 2.5 AOTAutograd refuses graphs in which several *aliased* inputs (blocks are views of one parameter) are mutated while
             # compiled with dynamic shapes.  The compiler rejects the program before anything is computed: this is a limitation of the
             # toolchain under (auto-)dynamic shapes, not a different update; the case is excluded and counted.  The same holds for the
@@ -128,7 +128,8 @@ def oracle(case: dict) -> Outcome:
             from . import c05
 
             amp = max(amp, c05._amplification(B.opt, B.all_params(), eff))
-            tol = 64 * float(torch.finfo(torch.float32).eps) * (1.0 + amp)
+            # relative to the parameter dtype: the library's float32 scalars (lr, bias corrections) are the same tensors on both sides
+            tol = 64 * float(torch.finfo(gen.DT[eff["pdtype"]]).eps) * (1.0 + amp)
             if tol > 0.05:
                 out.classes.append("uninformative_ill_conditioned")
                 break
@@ -229,7 +230,7 @@ def oracle_ddp(case: dict) -> Outcome:
         return out
     if "raise" in res:
         si, ea, eb, ta, tb = res["raise"]
-        if ta == "BackendCompilerFailed" and tb == "NoneType" and ("share the same storage" in ea or "SymInt" in ea):
+        if ta == "BackendCompilerFailed" and tb == "NoneType" and ("share the same storage" in ea or "SymInt" in ea or "size_bytes_is_heap_allocated_" in ea):
             out.classes.append("compiler_rejected_aliased_dynamic_graph")
             out.excluded += 1
         elif ta != tb:
